@@ -1429,11 +1429,170 @@ func (c *c19) jobHistory(job string) {
 	}
 }
 
+// jobOptions: resource.New with every sequence of options from a menu that puts the environment
+// detector, plain attributes, the SDK's own detector, scripted detectors (complete, with a schema
+// URL, partial, failing, a nil Detector) and WithSchemaURL next to each other. What each option
+// contributes is measured by giving it to New alone; a sequence must hold the later-wins union of
+// the contributions, the one schema URL named (or none and ErrSchemaURLConflict when they
+// differ; of several WithSchemaURL the last counts), and an error exactly when a contribution had
+// one or the schema URLs conflict.
+func (c *c19) jobOptions(maxLen int) {
+	r := c.r
+	r.Section("options")
+	os.Setenv(c19AttrVar, "a=7,e=1")
+	os.Setenv(c19SvcVar, "svc")
+	defer os.Unsetenv(c19AttrVar)
+	defer os.Unsetenv(c19SvcVar)
+	ctx := context.Background()
+	type opt struct {
+		name      string
+		mk        func() resource.Option
+		isSchema  string // WithSchemaURL(x)
+		attrs     map[string]string
+		schema    string
+		err       error
+		isPartial bool
+	}
+	det := func(k int) func() resource.Option {
+		return func() resource.Option { return resource.WithDetectors(detKinds[k].instantiate(0)) }
+	}
+	menu := []*opt{
+		{name: "WithFromEnv()", mk: func() resource.Option { return resource.WithFromEnv() }},
+		{name: "WithAttributes(a=5,f=1)", mk: func() resource.Option {
+			return resource.WithAttributes(attribute.Int("a", 5), attribute.Int("f", 1))
+		}},
+		{name: "WithTelemetrySDK()", mk: func() resource.Option { return resource.WithTelemetrySDK() }},
+		{name: "WithDetectors(" + detKinds[0].name + ")", mk: det(0)},
+		{name: "WithDetectors(" + detKinds[1].name + ")", mk: det(1)},
+		{name: "WithDetectors(" + detKinds[2].name + ")", mk: det(2), isPartial: true},
+		{name: "WithDetectors(" + detKinds[3].name + ")", mk: det(3)},
+		{name: "WithDetectors(nil)", mk: func() resource.Option { return resource.WithDetectors(nil) }},
+		{name: "WithSchemaURL(s1)", mk: func() resource.Option { return resource.WithSchemaURL(c19s1) }, isSchema: c19s1},
+		{name: "WithSchemaURL(s2)", mk: func() resource.Option { return resource.WithSchemaURL(c19s2) }, isSchema: c19s2},
+	}
+	var names []string
+	for _, o := range menu {
+		names = append(names, o.name)
+		res, err := resource.New(ctx, o.mk())
+		o.attrs = map[string]string{}
+		for _, kv := range res.Attributes() {
+			o.attrs[string(kv.Key)] = c19vstr(kv.Value)
+		}
+		o.schema, o.err = res.SchemaURL(), err
+	}
+	r.Bound("options_menu", names)
+	r.Bound("options_max_len", maxLen)
+	r.Bound("options_environment", c19AttrVar+"=a=7,e=1 "+c19SvcVar+"=svc")
+	// the menu itself: what the environment and the SDK detector are documented to give
+	if fmt.Sprint(menu[0].attrs) != fmt.Sprint(map[string]string{"a": "STRING:7", "e": "STRING:1", "service.name": "STRING:svc"}) || menu[0].schema != "" || menu[0].err != nil {
+		r.FailHere("options|environment alone", menu[0].name, "New(WithFromEnv()) holds %v@%q err=%v", menu[0].attrs, menu[0].schema, menu[0].err)
+	}
+	if len(menu[2].attrs) != 3 || menu[2].attrs["telemetry.sdk.language"] != "STRING:go" || menu[2].schema == "" || menu[2].err != nil {
+		r.FailHere("options|telemetry SDK alone", menu[2].name, "New(WithTelemetrySDK()) holds %v@%q err=%v", menu[2].attrs, menu[2].schema, menu[2].err)
+	}
+	for L := 1; L <= maxLen; L++ {
+		seq := make([]int, L)
+		for {
+			if r.Expired() {
+				return
+			}
+			if r.Want() {
+				var sn []string
+				var opts []resource.Option
+				for _, k := range seq {
+					sn = append(sn, menu[k].name)
+					opts = append(opts, menu[k].mk())
+				}
+				want := map[string]string{}
+				schemas := map[string]bool{}
+				init := ""
+				anyErr, partial := false, false
+				for _, k := range seq {
+					o := menu[k]
+					if o.isSchema != "" {
+						init = o.isSchema
+						continue
+					}
+					for key, v := range o.attrs {
+						want[key] = v
+					}
+					if o.schema != "" {
+						schemas[o.schema] = true
+					}
+					anyErr = anyErr || o.err != nil
+					partial = partial || o.isPartial
+				}
+				if init != "" {
+					schemas[init] = true
+				}
+				wantSchema, conflict := "", len(schemas) > 1
+				if len(schemas) == 1 {
+					for u := range schemas {
+						wantSchema = u
+					}
+				}
+				r.Eval()
+				var res *resource.Resource
+				var err error
+				func() {
+					defer func() {
+						if p := recover(); p != nil {
+							r.FailHere("panic|New", sn, "New(%v) panicked: %v", sn, p)
+						}
+					}()
+					res, err = resource.New(ctx, opts...)
+				}()
+				if res == nil {
+					goto next
+				}
+				{
+					got := map[string]string{}
+					dup := false
+					for _, kv := range res.Attributes() {
+						if _, d := got[string(kv.Key)]; d {
+							dup = true
+						}
+						got[string(kv.Key)] = c19vstr(kv.Value)
+					}
+					if dup || fmt.Sprint(got) != fmt.Sprint(want) || res.Len() != len(want) {
+						r.FailHere("options-attrs|not the later-wins union of what each option gives alone", sn, "New(%v) holds %s, the contributions merged in option order give %v", sn, canonKVs(res.Attributes()), want)
+					}
+					if res.SchemaURL() != wantSchema {
+						r.FailHere("options-schema|wrong", sn, "New(%v) has schema URL %q, want %q (conflict=%v)", sn, res.SchemaURL(), wantSchema, conflict)
+					}
+					if conflict != (err != nil && errors.Is(err, resource.ErrSchemaURLConflict)) {
+						r.FailHere("options-error|conflict", sn, "New(%v): schema URLs conflict=%v, error %v", sn, conflict, err)
+					}
+					if (anyErr || conflict) != (err != nil) {
+						r.FailHere("options-error|presence", sn, "New(%v): a contribution failed=%v conflict=%v, error %v", sn, anyErr, conflict, err)
+					}
+					if partial && !errors.Is(err, resource.ErrPartialResource) {
+						r.FailHere("options-error|partial not reported", sn, "New(%v): error %v does not wrap ErrPartialResource", sn, err)
+					}
+					r.Outcome("options:" + canonKVs(res.Attributes()) + "@" + res.SchemaURL() + fmt.Sprint(err != nil))
+				}
+			}
+		next:
+			i := L - 1
+			for ; i >= 0; i-- {
+				seq[i]++
+				if seq[i] < len(menu) {
+					break
+				}
+				seq[i] = 0
+			}
+			if i < 0 {
+				break
+			}
+		}
+	}
+}
+
 func TestVerifC19(t *testing.T) {
 	// decode failures are reported through the global error handler: keep them off stderr
 	otel.SetErrorHandler(otel.ErrorHandlerFunc(func(error) {}))
 
-	jobs := []string{"lists", "pairs", "lookalike-schemas", "wide", "detect", "history"}
+	jobs := []string{"lists", "pairs", "lookalike-schemas", "wide", "detect", "history", "options"}
 	for i := 0; i < tripleParts; i++ {
 		jobs = append(jobs, fmt.Sprintf("triples/%02d", i))
 	}
@@ -1548,6 +1707,8 @@ func TestVerifC19(t *testing.T) {
 			c.jobDetect(detKindsN, detLen)
 		case job == "history":
 			c.jobHistory(job)
+		case job == "options":
+			c.jobOptions(enum.Pick(r, 3, 5))
 		case strings.HasPrefix(job, "triples/"):
 			fmt.Sscanf(job, "triples/%d", &n)
 			c.jobTriples(space, n, tripleParts)
